@@ -1053,7 +1053,8 @@ def run_memmem(rep, repo):
             if not uses_memcmp:
                 # equality of the whole compared range follows from the memcmp model only; a hand-written comparison
                 # loop needs a quantified loop invariant that the domain does not have
-                lost = [o for o in obs if not o['ok'] and o.get('kind') == 'post' and 'needle_last' in str(o.get('name'))]
+                # (the same holds for the occurrence clauses when the scan itself is a nest of hand-written loops)
+                lost = [o for o in obs if not o['ok'] and o.get('kind') in ('post', 'returns')]
                 if lost:
                     BROKEN.append('%s: the match test is not a memcmp call: "%s" cannot be decided' % (F, lost[0]['name']))
                     obs = [o for o in obs if o not in lost]
